@@ -11,7 +11,7 @@ the five channels; L4 the set of slave-driven channels is {b, r} in connect_axi,
 L5 while locked a request must not be presented by the frozen select alone (fails: known findings, 2 classes).
 Not decided: issue-order delivery, fairness, independence of read and write progress."""
 import ast
-from ..core import AnalysisError, norm, const_fold
+from ..core import AnalysisError, norm, cnorm, const_fold
 from .. import boolx as B
 from .. import q
 from ..rules_stream import fx_of, fail_closed, prio, short
@@ -171,7 +171,7 @@ def run(ctx):
         ok = len(reg) == 1
         if ok:
             ch = reg[0].t[len("slave_sel_reg["):-1]
-            ok = reg[0].v == f"slave_sel_dec[{ch}]" and B.equivalent(reg[0].eff(), B.A(f"locks[{ch}].ready"))
+            ok = reg[0].v == f"slave_sel_dec[{ch}]" and q.EQ(reg[0], B.A(f"locks[{ch}].ready"))
         ctx.ob("L3", rel, dcls, "select register updated only when unlocked", ok,
                "" if ok else f"{[(a.v, a.gtext()) for a in reg]}: the route changes while responses are outstanding", reg[0].line if reg else 0)
         fin = [a for a in fx.find(domain="comb") if a.t.startswith("slave_sel[")]
@@ -180,8 +180,8 @@ def run(ctx):
         ok = len(live) == 1 and len(froz) == 1 and len(fin) == 2
         if ok:
             ch = live[0].t[len("slave_sel["):-1]
-            ok = B.equivalent(live[0].eff(), B.A(f"locks[{ch}].ready")) and \
-                B.equivalent(froz[0].eff(), B.Not(B.A(f"locks[{ch}].ready")))
+            ok = q.EQ(live[0], B.A(f"locks[{ch}].ready")) and \
+                q.EQ(froz[0], B.Not(B.A(f"locks[{ch}].ready")))
         ctx.ob("L3", rel, dcls, "final select = live decode when unlocked, register otherwise", ok, "" if ok else f"{[(a.v, a.gtext()) for a in fin]}")
         m2s = [a for a in fx.find(domain="comb") if a.t == "getattr(getattr(slaves[i][1], channel), name)"]
         ok = len(m2s) == 1 and not m2s[0].guards
@@ -195,8 +195,9 @@ def run(ctx):
         s2m = [a for a in fx.find(domain="comb") if a.t == "getattr(getattr(master, channel), name)"]
         ok = len(s2m) == 1 and not s2m[0].guards
         if ok:
-            t = s2m[0].v
-            ok = t.startswith("reduce(or_, [") and "getattr(getattr(slaves[i][1], channel), name) & Replicate(slave_sel[directions[channel]][i]," in t and \
+            t = cnorm(s2m[0].value)
+            ok = t.startswith("reduce(or_, [") and \
+                cnorm("getattr(getattr(slaves[i][1], channel), name) & Replicate(slave_sel[directions[channel]][i], len(getattr(getattr(master, channel), name)))")[:100] in t and \
                 "(i, (_, slave)) in enumerate(slaves)" in t
         ctx.ob("L3", rel, dcls, "S->M signals = OR over all slaves masked by the same select bit", ok, "" if ok else f"{[short(a.v, 200) for a in s2m]}",
                s2m[0].line if s2m else 0)
